@@ -46,7 +46,7 @@ SECTION_DEPS = {
     "misc_consts": ["C01", "C09", "C10", "C11", "C12", "C18"],
     "orderings": ["C01", "C02", "C03", "C04", "C06", "C07", "C08", "C09", "C10", "C11", "C15", "C18"],
     "poll_signal_shape": ["C09", "C11"], "instance_shape": ["C12", "C14", "C18"],
-    "skeleton": ["C01", "C02", "C03", "C04", "C06", "C07", "C08", "C09", "C10", "C11", "C12", "C13", "C15", "C16", "C18"],
+    "skeleton": ["C01", "C02", "C03", "C04", "C06", "C07", "C08", "C09", "C10", "C11", "C12", "C13", "C15", "C16", "C18", "C17"],
 }
 
 
